@@ -203,7 +203,7 @@ func (it *Interp) polyOf(v Val) *Poly {
 	if v.Poly != nil {
 		return v.Poly
 	}
-	if v.Lo != nil && v.IsConst() && v.Lo.Sign() >= 0 {
+	if v.Lo != nil && v.IsConst() {
 		return PolyConst(v.Lo)
 	}
 	return nil
@@ -438,33 +438,56 @@ func (it *Interp) polyLowMod(p *Poly, k int) *Poly {
 // polyBin computes the polynomial of r = a op b. mod reports that the polynomial equals the value only modulo 2^W
 // (the machine operation may have wrapped); such values may be added, subtracted, shifted left and masked, nothing else.
 func (it *Interp) polyBin(op string, a, b, r Val, k int) (res *Poly, mod bool) {
-	if !it.H.Polys || a.Signed || a.Lo == nil || b.Lo == nil {
+	if !it.H.Polys || a.Lo == nil || b.Lo == nil {
 		return nil, false
 	}
 	pa, pb := it.polyOf(a), it.polyOf(b)
 	am, bm := a.PolyMod && a.Poly != nil, b.PolyMod && b.Poly != nil
-	max := maxOf(a.W, false)
+	sg := a.Signed
+	min, max := minOf(a.W, sg), maxOf(a.W, sg)
+	fits := func(lo, hi *big.Int) bool { return lo.Cmp(min) >= 0 && hi.Cmp(max) <= 0 }
+	// a result that may wrap is kept modulo 2^W for unsigned types only (the recognised borrow idioms); signed wraps drop it
+	wrapped := func(p *Poly) (*Poly, bool) {
+		if sg {
+			return nil, false
+		}
+		return p, true
+	}
+	nonneg := func(v Val) bool { return v.Lo.Sign() >= 0 }
 	switch op {
 	case "add":
 		if pa == nil || pb == nil {
 			return nil, false
 		}
 		sum := PolyAdd(pa, pb, 1)
-		if !am && !bm && new(big.Int).Add(a.Hi, b.Hi).Cmp(max) <= 0 {
+		if !am && !bm && fits(new(big.Int).Add(a.Lo, b.Lo), new(big.Int).Add(a.Hi, b.Hi)) {
 			return sum, false
 		}
-		return sum, true
+		return wrapped(sum)
 	case "sub":
 		if pa == nil || pb == nil {
 			return nil, false
 		}
 		d := PolyAdd(pa, pb, -1)
-		if !am && !bm && a.Lo.Cmp(b.Hi) >= 0 {
+		if !am && !bm && fits(new(big.Int).Sub(a.Lo, b.Hi), new(big.Int).Sub(a.Hi, b.Lo)) {
 			return d, false
 		}
-		return d, true
+		return wrapped(d)
 	case "mul":
-		if pa == nil || pb == nil || am || bm || new(big.Int).Mul(a.Hi, b.Hi).Cmp(max) > 0 {
+		if pa == nil || pb == nil || am || bm {
+			return nil, false
+		}
+		c := []*big.Int{new(big.Int).Mul(a.Lo, b.Lo), new(big.Int).Mul(a.Lo, b.Hi), new(big.Int).Mul(a.Hi, b.Lo), new(big.Int).Mul(a.Hi, b.Hi)}
+		lo, hi := c[0], c[0]
+		for _, x := range c[1:] {
+			if x.Cmp(lo) < 0 {
+				lo = x
+			}
+			if x.Cmp(hi) > 0 {
+				hi = x
+			}
+		}
+		if !fits(lo, hi) {
 			return nil, false
 		}
 		return PolyMul(pa, pb), false
@@ -473,17 +496,24 @@ func (it *Interp) polyBin(op string, a, b, r Val, k int) (res *Poly, mod bool) {
 			return nil, false
 		}
 		sc := PolyScale(pa, pow2(k))
-		if !am && new(big.Int).Lsh(a.Hi, uint(k)).Cmp(max) <= 0 {
+		if !am && fits(new(big.Int).Lsh(a.Lo, uint(k)), new(big.Int).Lsh(a.Hi, uint(k))) {
 			return sc, false
 		}
-		return sc, true
+		return wrapped(sc)
 	case "shr":
-		if am {
+		// floor division; Go's >> on signed values is arithmetic, i.e. floor as well
+		if am || pa == nil {
 			return nil, false
 		}
-		return it.polyHigh(pa, a.Hi, k), false
+		if nonneg(a) {
+			return it.polyHigh(pa, a.Hi, k), false
+		}
+		return it.bitSlice(pa, k, -1), false
 	case "low":
-		if am {
+		if pa == nil {
+			return nil, false
+		}
+		if am || !nonneg(a) {
 			return it.polyLowMod(pa, k), false
 		}
 		return it.polyLow(pa, a.Hi, k), false
@@ -492,7 +522,7 @@ func (it *Interp) polyBin(op string, a, b, r Val, k int) (res *Poly, mod bool) {
 		if a.IsConst() && !b.IsConst() {
 			x, px, m, xm = b, pb, a, bm
 		}
-		if !m.IsConst() || px == nil {
+		if !m.IsConst() || px == nil || m.Lo.Sign() < 0 {
 			return nil, false
 		}
 		lo, hi, ok := contiguousMask(m.Lo)
@@ -502,14 +532,15 @@ func (it *Interp) polyBin(op string, a, b, r Val, k int) (res *Poly, mod bool) {
 			}
 			return nil, false
 		}
+		if hi > x.W || (x.Signed && hi >= x.W) {
+			return nil, false
+		}
+		// two's complement: x & (2^hi - 1) is x mod 2^hi (floor) also for negative x
 		low := func(k int) *Poly {
-			if xm {
+			if xm || !nonneg(x) {
 				return it.polyLowMod(px, k)
 			}
 			return it.polyLow(px, x.Hi, k)
-		}
-		if hi > x.W {
-			hi = x.W
 		}
 		// (x mod 2^hi) - (x mod 2^lo)
 		if lo == 0 {
@@ -517,7 +548,7 @@ func (it *Interp) polyBin(op string, a, b, r Val, k int) (res *Poly, mod bool) {
 		}
 		return PolyAdd(low(hi), low(lo), -1), false
 	case "or":
-		if pa == nil || pb == nil {
+		if pa == nil || pb == nil || !nonneg(a) || !nonneg(b) {
 			return nil, false
 		}
 		if new(big.Int).And(a.mayBits(), b.mayBits()).Sign() != 0 {
